@@ -509,7 +509,9 @@ func (s *storage) cleanupArchetypes(target Entity) {
 			table := &s.tables[tables.tables[i]]
 
 			for _, rel := range table.relationIDs {
-				if rel.target.id == target.id {
+				// Also detach other targets that are already dead:
+				// batch removal recycles all entities before cleaning up.
+				if rel.target.id == target.id || !s.entityPool.Alive(rel.target) {
 					newRelations = append(newRelations, relationID{component: rel.component, target: Entity{}})
 				}
 			}
